@@ -38,7 +38,25 @@ CURVE_OBJS = ("LinearSpeedCurve", "PidSpeedCurve", "FunctionSpeedCurve", "PidLoo
 SENSOR_OBJS = ("HwmonSensor", "FileSensor", "CmdSensor")
 
 
-def finding_of(key):
+def known_triples():
+    """the hand-maintained known-findings list of Props/C20.lean (what the theorems are stated against)"""
+    import re
+    path = os.path.join(leanside.LEAN_DIR, "Fan2go", "Props", "C20.lean")
+    try:
+        src = open(path).read()
+    except FileNotFoundError:
+        return set()
+    m = re.search(r"def knownConflicts[^\n]*:=\s*\[(.*?)\n\]", src, re.S)
+    body = m.group(1) if m else ""
+    return set(re.findall(r'\("([^"]+)",\s*"([^"]+)",\s*"([^"]+)"\)', body))
+
+
+def finding_of(key, kindA=None, kindB=None):
+    """a race on a (field, kinds) triple that is not in knownConflicts is a NEW violation, whatever the object"""
+    if kindA is not None:
+        kt = known_triples()
+        if (key, kindA, kindB) not in kt and (key, kindB, kindA) not in kt:
+            return None
     obj = key.split(".")[0]
     if obj in FAN_OBJS:
         return "C20-fan-state-races"
@@ -164,9 +182,9 @@ class C20(Prop):
                                 detail={"kinds": [e["kindA"], e["kindB"]], "n": e["n"], "finding": None}))
         by_f = {}
         for e in tot["pairs"]:
-            by_f.setdefault(finding_of(e["key"]), []).append(e)
+            by_f.setdefault(finding_of(e["key"], e["kindA"], e["kindB"]), []).append(e)
         for fid, es in sorted(by_f.items(), key=lambda x: str(x[0])):
-            vs.append(Violation("data races reported by the race detector on %d known (field, kinds) triples, e.g. %s %s x %s: %s"
+            vs.append(Violation("data races reported by the race detector on %d (field, kinds) triples, e.g. %s %s x %s: %s"
                                 % (len(es), es[0]["key"], es[0]["kindA"], es[0]["kindB"], es[0]["functions"]),
                                 stream="race", detail={"finding": fid, "triples": [[e["key"], e["kindA"], e["kindB"], e["n"]] for e in es]}))
         for r in runs:
